@@ -81,7 +81,7 @@ def main(ctx):
               "close:responsive_ok", "drop:silent_dropped", "drop:responsive_ok",
               "ping:silent_dropped", "ping:responsive_ok", "ping:data_counts",
               "ping:data_does_not_count", "after_closed_checked", "pings_seen", "disabled_ok",
-              "stalled_peer_jobs", "ping:fragment_as_traffic", "proxy_jobs", "close_started_by_failing", "close_with_autoping", "ping_size_125", "ping:connection_ends_with_ping_outstanding", "ping:app_between_streamed_frames",
+              "stalled_peer_jobs", "ping:fragment_as_traffic", "proxy_jobs", "close_started_by_failing", "close_with_autoping", "ping_size_125", "ping:connection_ends_with_ping_outstanding", "ping:app_between_streamed_frames", "ping:app_closes_with_ping_outstanding",
               "peerclose_echo"):
         ctx.require(n)
 
@@ -475,6 +475,11 @@ def job(a):
         # the connection ends while a ping is outstanding: closing handshake started by the peer followed
         # by the TCP end, or an abrupt TCP loss - afterwards the ping machinery has to be dead as well
         choices += [(0.25, "peer-close"), (0.25, "tcp-lost")]
+        if T:
+            # the application starts the closing handshake while a ping is outstanding and the peer stays
+            # silent (the closing handshake's own timeout is later): the ping deadline still holds
+            choices.append((0.25, "app-close"))
+            opts["closeHandshakeTimeout"] = T + 3
         if stalled:
             choices = [(None, "-")]
         for plan in itertools.product(choices, repeat=npings):
@@ -522,6 +527,19 @@ def job(a):
                     # schedule the reaction
                     at = pt + d
                     counts = (k in ("pong", "data+pong")) or (restart and T > 0)
+                    if k == "app-close":
+                        while r.now() < at - 1e-9 and r.drop_time is None:
+                            r.tick()
+                        if r.drop_time is None:
+                            r.p.sendClose(1000, "bye")
+                            expected_drop = (pt, pt + T, "silent-while-closing")
+                            count("ping:app_closes_with_ping_outstanding")
+                            # from now on the peer stays silent
+                            idx = len(plan)
+                            plan = tuple(plan) + ((None, "-"),) * 4
+                            continue
+                        dead = True
+                        break
                     if k in ("peer-close", "tcp-lost"):
                         while r.now() < at - 1e-9 and r.drop_time is None:
                             r.tick()
